@@ -2,9 +2,10 @@
   C16 — DTD processing is off by default; `allow_dtd` changes nothing else.
 -/
 import Rox.Parse
+import Rox.Lemmas.EntFrame
 
 namespace Rox.Props.C16
-open Rox Rox.TM
+open Rox Rox.TM Rox.Lemmas
 
 variable (T : Tables) (txt : Bytes)
 
@@ -83,5 +84,56 @@ theorem no_dtd_tokens_when_detected (pre : List Token)
     subst this
     exact ⟨more, stop, Or.inl ht⟩
   · exact ⟨[], .ok (), Or.inr (heq ▸ h)⟩
+
+/-- With `allow_dtd = false` the tokenizer never delivers an `EntityDeclaration` token, for any
+input. -/
+theorem no_entity_tokens_by_default :
+    ∀ t ∈ (tokenize T txt false).1, t.isEntityDecl = false :=
+  parseDocument_no_entityDecl T txt
+
+/-- An `EntityDeclaration` token can only come out of the DOCTYPE; in element content - also the
+content of an expanded entity - it never appears. -/
+theorem entity_tokens_only_from_doctype (a b : Nat) :
+    ∀ t ∈ (tokenizeContent T txt a b).1, t.isEntityDecl = false :=
+  tokenizeContent_no_entityDecl T txt a b
+
+/-- **No entity is ever declared or expanded under the default options**: at the end of every
+accepted parse with `allow_dtd = false` the entity table is empty and the loop detector was never
+touched (every expansion of an entity, in text or in an attribute value, passes through
+`inc_references`, which counts). -/
+theorem no_entity_declared_or_expanded (opt : Opt) (c : Ctx)
+    (h : parseCtx T txt depthFuel { opt with allowDtd := false } = .ok c) :
+    c.entities = [] ∧ c.ld = {} ∧ c.maxDepth = 0 := by
+  unfold parseCtx at h
+  rw [Res.bind_eq_ok] at h
+  obtain ⟨c0, h0, h⟩ := h
+  dsimp only at h
+  rw [Res.bind_eq_ok] at h
+  obtain ⟨c1, hrun, hfin⟩ := h
+  have hinit : c0.entities = [] ∧ c0.ld = {} ∧ c0.maxDepth = 0 := by
+    unfold initCtx at h0
+    rw [Res.bind_eq_ok] at h0
+    obtain ⟨ns, _, h0⟩ := h0
+    simp only [pure, Res.ok.injEq] at h0
+    subst h0
+    exact ⟨rfl, rfl, rfl⟩
+  have hent := runTokens_entOk (token T txt depthFuel) (token_entOk T txt depthFuel) _
+    (parseDocument_no_entityDecl T txt) _ _ _ hrun
+  unfold finish at hfin
+  rw [Res.bind_eq_ok] at hfin
+  obtain ⟨has, _, hfin⟩ := hfin
+  split at hfin
+  · simp at hfin
+  · split at hfin
+    · simp at hfin
+    · simp only [pure, Res.ok.injEq] at hfin
+      subst hfin
+      refine ⟨?_, ?_, ?_⟩
+      · show c1.entities = []
+        rw [hent.1]; exact hinit.1
+      · show c1.ld = {}
+        rw [(hent.2 hinit.1).1]; exact hinit.2.1
+      · show c1.maxDepth = 0
+        rw [(hent.2 hinit.1).2]; exact hinit.2.2
 
 end Rox.Props.C16
